@@ -214,6 +214,48 @@ def overwritten_after_construction(it, ev):
     return False
 
 
+def revisits_processed_element(it, rec, chain):
+    """the call that lets this exception out is made on an element read back from a list this same function fills
+    (`prev = new_items[-1]; f(prev.rd)`), and the function converts the same fault of `f` in a handler of its own: whether the
+    element already went through that handler when it was appended is a loop-carried fact the interpretation does not have"""
+    if len(chain) < 2:
+        return None
+    caller_q, call = chain[-2]
+    fn = it.funcs.get(caller_q)
+    if fn is None or not isinstance(call, ast.Call):
+        return None
+    if not any(q == caller_q and r.origin is rec.origin for (q, h, r, how) in it.ev_handler.values()):
+        return None
+    assigned, appended = {}, set()
+    for n in walk_no_nested(fn):
+        if isinstance(n, ast.Assign):
+            for t in n.targets:
+                for nm in ast.walk(t):
+                    if isinstance(nm, ast.Name):
+                        assigned.setdefault(nm.id, []).append(n.value if t is nm else None)
+        elif isinstance(n, (ast.For, ast.comprehension)):
+            for nm in ast.walk(n.target):
+                if isinstance(nm, ast.Name):
+                    assigned.setdefault(nm.id, []).append(None)
+        elif isinstance(n, (ast.AugAssign, ast.AnnAssign, ast.NamedExpr)) and isinstance(n.target, ast.Name):
+            assigned.setdefault(n.target.id, []).append(None)
+        elif isinstance(n, ast.Call) and isinstance(n.func, ast.Attribute) and n.func.attr == 'append' and isinstance(n.func.value, ast.Name):
+            appended.add(n.func.value.id)
+    for a in list(call.args) + [k.value for k in call.keywords]:
+        root = a
+        while isinstance(root, ast.Attribute):
+            root = root.value
+        if root is a or not isinstance(root, ast.Name):
+            continue
+        srcs = assigned.get(root.id)
+        if not srcs or root.id in {p.arg for p in fn.args.args + fn.args.kwonlyargs}:
+            continue
+        if all(isinstance(v, ast.Subscript) and isinstance(v.value, ast.Name) and v.value.id in appended for v in srcs):
+            return '{}:{} `{}` is applied to an element read back from `{}`, which this function fills after converting the same fault: ' \
+                   'whether it can still raise there is not established'.format(caller_q, call.lineno, unparse(call)[:50], srcs[0].value.id)
+    return None
+
+
 def mentions_origin(atom, origins):
     """does this (nested) abstract value contain text elements of one of these line lists"""
     if isinstance(atom, tuple) and len(atom) >= 2 and atom[0] == 'elem' and atom[1] in origins:
@@ -249,7 +291,31 @@ def run(repo, tier):
     for anchor in (LINE, ERROR):
         if anchor not in it.classes:
             raise AnalysisError('anchor vanished: class {}'.format(anchor))
-    results = it.run(ENTRY, entry_args)
+    try:
+        results = it.run(ENTRY, entry_args)
+    except AnalysisError as stopped:
+        # the interpretation stopped at code it does not understand.  What it had established by then still stands: an error /
+        # item that was built from understood code without the Line of its source line is a violation, not a no-verdict
+        holds = {(id(ev['node']), ev['attr']) for ev in it.ev_store.values() if any(is_line(a) for a in ev['val'])}
+        if any(id(ev['site']) in it.approx_sites and (id(ev['node']), ev['attr']) in holds and any(not is_line(a) for a in ev['val']) for ev in it.ev_store.values()):
+            raise           # values of unknown shape were stored into Line-holding attributes: what is read back proves nothing
+        for ev in sorted(it.ev_store.values(), key=lambda e: (getattr(e['site'], 'lineno', 0), e['attr'])):
+            if (id(ev['node']), ev['attr']) not in holds:
+                continue
+            bad = sorted({a for a in ev['val'] if not is_line(a)}, key=str)
+            if not bad or not all(a == NONE or a[0] in ('str', 'c', 'tok') for a in bad) or overwritten_after_construction(it, ev):
+                continue
+            is_err = any(it.is_exception_class(c) for c in ev['cls'])
+            names = '/'.join(sorted(ev['cls']))
+            what = ', '.join(sorted({'None' if a == NONE else 'text' for a in bad}))
+            msg = ('this assembler error does not carry the Line of the faulty source line (its `{}` may be: {})' if is_err else
+                   '{} is built without the Line of the source line it derives from (its `{{}}` may be: {{}})'.format(names)).format(ev['attr'], what)
+            rep.fail(Finding('R15.2.line' if is_err else 'R15.5.items', ev['qual'], ev['site'], msg, line=getattr(ev['site'], 'lineno', None)),
+                     instance='{} {} {}'.format(ev['qual'], names, unparse(ev['site'])[:60]))
+        if not rep.findings:
+            raise
+        rep.analysed['interpretation stopped'] = str(stopped)[:200]
+        return rep
     rep.count('functions reached from assemble', len(it.reached))
     for (ret, excs), arm in zip(results, ('compress=False', 'compress=True')):
         if not ret:
@@ -276,6 +342,10 @@ def run(repo, tier):
             # reachable is not known
             undecided.append('{}:{} whether `{}` is reachable depends on a type test the analysis does not follow'.format(
                 q_origin, rec.origin.lineno, unparse(rec.origin)[:50]))
+            continue
+        again = revisits_processed_element(it, rec, chain)
+        if again:
+            undecided.append(again)
             continue
         entry = chain[1][0] if len(chain) > 1 else chain[0][0]
         text = chain_text(rec)
